@@ -53,7 +53,15 @@ func WithServiceResponse(resp Response, req Request) Option {
 
 func WithObjectHeaderBinary(b []byte) Option {
 	return func(c *cfg) {
-		c.msg = binaryHeader(b)
+		c.msg = binaryHeader{hdr: b}
+	}
+}
+
+// WithObjectHeaderBinaryForRequest is the same as [WithObjectHeaderBinary] but
+// also makes X-headers of the request available to the rules.
+func WithObjectHeaderBinaryForRequest(b []byte, req Request) Option {
+	return func(c *cfg) {
+		c.msg = binaryHeader{hdr: b, req: &requestXHeaderSource{req: req}}
 	}
 }
 
